@@ -1,6 +1,26 @@
-"""C13 spec."""
-SPEC = dict(id="C13", kind="pure", binary="c13", gen="c13", corr="C13", n_quick=400, n_thorough=16000,
-    level_text="placeholder",
-    coq_targets=["theories/Props/C13.vo", "theories/Corr/C13.vo"],
-    assumptions=[],
-    trusted_base=[])
+"""C13 spec: log parsing of the file metrics collector."""
+SPEC = dict(id="C13", kind="pure", binary="c13", gen="c13", corr="C13", n_quick=800, n_thorough=16000,
+    level_text="CollectObservationLog (TEXT and JSON parsers, newObservationLog, parseTimestamp, GetFilterRegexpList) is modelled on real byte strings; "
+               "Coq theorems for files of any length: the result equals the comprehension over all lines (pre-filter soundness included), fallback record, "
+               "line timestamps, integral epoch timestamps exact and order preserving, fractional ones refuted (F6), model-level totality with the two crash sites; "
+               "the model is compared with the real CollectObservationLog on generated files each run and the boolean form of the property is evaluated on the implementation's output",
+    coq_targets=["theories/Props/C13.vo", "theories/Corr/C13.vo", "theories/Proofs/C13Monitor.vo", "theories/Proofs/LogParseP.vo"],
+    assumptions=[
+        "regexp (Compile, FindAllStringSubmatch), time.Parse(RFC3339Nano) as a success flag, json.Unmarshal into map[string]interface{} and strconv.FormatFloat(f,'f',-1,64) "
+        "are outside the model: universally quantified functions in the theorems; on every generated file the harness evaluates them with Go's own libraries "
+        "(regexp results as byte offsets into the line, cut after the whole match and the first two groups because the code reads only len>=3, [1], [2]; "
+        "decoded JSON objects restricted to the tracked keys and 'timestamp')",
+        "the only hypothesis on the regexp engine used by the theorems: captured groups are pieces of the line (checked on every case: groups are cut out of the line by offsets)",
+        "strings.Split/Contains/SplitN/TrimSpace (byte-exact incl. Unicode blanks) and strconv.ParseInt(_,10,64) are transcribed in Gallina and covered by the correspondence only, "
+        "as is time.Unix(sec,nsec).UTC().Format(RFC3339Nano) (civil-from-days, years 1..9999): no theorem says that the printed text denotes the instant; "
+        "each JSON case checks that Go's time.Parse reads the model's instant back from the implementation's text",
+        "numeric JSON timestamps are generated inside years 1..9999 or outside int64 (where ParseInt fails); the range in between (year > 9999 formatting, time.Unix overflow) is not covered",
+        "TOTALITY ON ARBITRARY BYTES IS TESTING, NOT PROOF: the RAW stream feeds random byte strings to the real parser and recovers panics; "
+        "C13_total / C13_crash_sites are statements about the model, whose panics are the two sites it knows (metrics[0], nil *Regexp); panics inside Go libraries are only observed",
+        "the default filter is a literal copy of common.DefaultFilter in the harness; a change of the constant in /repo is reported as a disagreement",
+        "the monitor's reading of 'in log order' inside one line: filter by filter, then match by match (TEXT); tracked-name list order (JSON)",
+        "known-finding domains (monitor only, no model comparison): JSON with some fractional numeric timestamp (F6, json-epoch-fraction); JSON with a tracked name listed twice (json-duplicate-metric)",
+        "not covered: os.Open/io.ReadAll failures, klog output, and cmd/.../main.go (package main: reportMetrics splits -m and -f at ';' and passes nil lists when the flags are empty; watchMetricsFile/early stopping is another property)",
+    ],
+    trusted_base=["harness/cmd/c13 calls the exported CollectObservationLog on a temporary file; no verif hook in /repo is needed",
+                  "Go's regexp, time, encoding/json, strconv as oracles for the model's section variables"])
